@@ -43,7 +43,14 @@ def gen_pipeline(rng):
         k = rng.choice(["aggregation", "optimization", "semantic_segmentation", "cost_volume_confidence"])
         if k == "optimization" and mcstep != 1:
             continue
-        cfg = {"aggregation": {"aggregation_method": "cbca"}, "optimization": {"optimization_method": "stub_opt"},
+        opt = {"optimization_method": "stub_opt"}
+        if rng.random() < 0.6:
+            # geometric priors of the optimisation step (read by optimization_check_conf, which looks the source up in
+            # the left image): every accepted form registers the step's margins
+            opt["geometric_prior"] = rng.choice([{"source": "internal"}, {"source": "segm"}, {"source": "classif"},
+                                                 {"source": "classif", "classes": ["a"]},
+                                                 {"source": "classif", "classes": ["a", "b"]}])
+        cfg = {"aggregation": {"aggregation_method": "cbca"}, "optimization": opt,
                "semantic_segmentation": {"segmentation_method": "stub_seg", "RGB_bands": None},
                "cost_volume_confidence": {"confidence_method": rng.choice(["ambiguity", "std_intensity", "risk"])}}[k]
         steps.append((k, cfg))
@@ -110,6 +117,17 @@ def oracle(named, rows, cols):
     return cum, non, glob
 
 
+def meta_with_priors(rows, cols, disp):
+    """metadata-like dataset that also carries a segmentation and a two-class classification (what a geometric prior of
+    an optimisation step refers to)"""
+    import numpy as np
+    ds = pu.meta_dataset(rows, cols, disp)
+    ds = ds.assign_coords(band_classif=["a", "b"])
+    ds["segm"] = (("row", "col"), np.zeros((rows, cols), dtype=np.int16))
+    ds["classif"] = (("band_classif", "row", "col"), np.zeros((2, rows, cols), dtype=np.int16))
+    return ds
+
+
 def real_margins(named, rows, cols, before=None, ids=None):
     """margins reported after check_conf of `named`; with `before`, the SAME machine object has checked the
     pipeline `before` first"""
@@ -122,9 +140,9 @@ def real_margins(named, rows, cols, before=None, ids=None):
         m = PandoraMachine()
         if before is not None:
             m.check_conf({"pipeline": {n: dict(c) for n, _, c in before}},
-                         pu.meta_dataset(rows, cols, (-2, 2)), pu.meta_dataset(rows, cols, None))
+                         meta_with_priors(rows, cols, (-2, 2)), meta_with_priors(rows, cols, None))
         cfg = {"pipeline": {n: dict(c) for n, _, c in named}}
-        m.check_conf(cfg, pu.meta_dataset(rows, cols, (-2, 2)), pu.meta_dataset(rows, cols, None))
+        m.check_conf(cfg, meta_with_priors(rows, cols, (-2, 2)), meta_with_priors(rows, cols, None))
         d = m.margins.to_dict()
     finally:
         if need2d:
